@@ -335,7 +335,7 @@ func (d *Def[C]) replay(raw json.RawMessage) (Result, error) {
 	if err := json.Unmarshal(raw, &c); err != nil {
 		return Result{}, err
 	}
-	return d.safeRun(c), nil
+	return d.confirm(c, d.safeRun(c)), nil
 }
 
 // safeRun converts a panic on the calling goroutine into a violation, so that
@@ -523,6 +523,38 @@ func writeCaseFile(path, property, check string, caseJSON []byte, vs []Violation
 	_ = os.WriteFile(path, b, 0o644)
 }
 
+var marginFactor = 1
+
+// Margin scales a wall-clock margin; it is 4x while a timing-dependent violation is being confirmed.
+func Margin(d time.Duration) time.Duration { return d * time.Duration(marginFactor) }
+
+func hasTimingKey(vs []Violation) bool {
+	for _, v := range vs {
+		if strings.HasPrefix(v.Key, "t/") {
+			return true
+		}
+	}
+	return false
+}
+
+// confirm re-runs a case once with 4x margins when it failed with a
+// timing-dependent class ("t/..."); only a second failure is believed.
+func (d *Def[C]) confirm(c C, res Result) Result {
+	if !hasTimingKey(res.Violations) {
+		return res
+	}
+	marginFactor = 4
+	res2 := d.safeRun(c)
+	marginFactor = 1
+	if len(res2.Violations) == 0 {
+		Extra(d.Property, d.check(), "timing_retry_passed", 1)
+		res2.Labels = append(res2.Labels, "needed-timing-retry")
+		return res2
+	}
+	Extra(d.Property, d.check(), "timing_retry_failed", 1)
+	return res2
+}
+
 // RunCase runs one concrete case outside rapid (enumerations, directed
 // probes); a violation fails the test.
 func (d *Def[C]) RunCase(t testing.TB, c C) {
@@ -530,7 +562,7 @@ func (d *Def[C]) RunCase(t testing.TB, c C) {
 	if d.Journal {
 		d.journal(c)
 	}
-	res := d.safeRun(c)
+	res := d.confirm(c, d.safeRun(c))
 	caseJSON, unknown := d.judge(c, &res)
 	if len(unknown) > 0 {
 		p := filepath.Join(getenv().out, fmt.Sprintf("fail-%s-%d-enum%x.json", d.check(), getenv().shard, caseHash(caseJSON)))
@@ -569,7 +601,7 @@ func (d *Def[C]) Check(t *testing.T) {
 		if d.Journal {
 			d.journal(c)
 		}
-		res := d.safeRun(c)
+		res := d.confirm(c, d.safeRun(c))
 		caseJSON, unknown := d.judge(c, &res)
 		if len(unknown) > 0 {
 			writeCaseFile(d.failPath(), d.Property, d.check(), caseJSON, unknown)
@@ -582,7 +614,7 @@ func (d *Def[C]) Check(t *testing.T) {
 func (d *Def[C]) Fuzz() func(*testing.T, []byte) {
 	return rapid.MakeFuzz(func(rt *rapid.T) {
 		c := d.Gen(rt)
-		res := d.safeRun(c)
+		res := d.confirm(c, d.safeRun(c))
 		caseJSON, unknown := d.judge(c, &res)
 		if len(unknown) > 0 {
 			writeCaseFile(d.failPath(), d.Property, d.check(), caseJSON, unknown)
